@@ -273,6 +273,23 @@ impl Engine for C20 {
             }
             out.push(Case::Program { prog: Program { keys: keys.clone(), blobs: blobs.clone(), steps }, root: Root::Dir });
         }
+        // single writes of more than 64 MiB (one buffer handed over in one call) and of 16 MiB
+        for len in [(64usize << 20) + 1, (16 << 20) + 3] {
+            let hkeys = vec!["huge".to_string(), "other".to_string()];
+            let hblobs = vec![crate::blob::Blob::new(len, 77), crate::blob::Blob::new(9, 2)];
+            let mut steps = Vec::new();
+            let mut one = WriteSpec::simple(Some(0), 0);
+            one.entry = WEntry::OneShot;
+            steps.push(Step { op: Op::Write(one), fl: Fl::Async });
+            let mut st1 = WriteSpec::simple(Some(1), 0);
+            st1.entry = WEntry::Opts;
+            st1.chunks = vec![len];
+            steps.push(Step { op: Op::Write(st1.clone()), fl: Fl::Async });
+            steps.push(Step { op: Op::Write(st1), fl: Fl::Sync });
+            steps.push(Step { op: Op::Read { key: 0 }, fl: Fl::Async });
+            steps.push(Step { op: Op::Extract { kind: XKind::Copy, checked: true, by: By::Key(1), dest: Dest::Absent }, fl: Fl::Async });
+            out.push(Case::Program { prog: Program { keys: hkeys, blobs: hblobs, steps }, root: Root::Dir });
+        }
         for (n, i) in ints.into_iter().enumerate() {
             let mut steps = Vec::new();
             for fl in [Fl::Sync, Fl::Async] {
@@ -296,7 +313,7 @@ impl Engine for C20 {
         out
     }
     fn exhaustive_note(&self, _tier: Tier) -> String {
-        "fixed family: each of 17 hostile on-disk integrity strings followed by every lookup / read / stream / extraction / listing / full-removal call in both flavours".into()
+        "fixed family: single writes of 16 MiB and 64 MiB + 1; each of 17 hostile on-disk integrity strings followed by every lookup / read / stream / extraction / listing / full-removal call in both flavours".into()
     }
     fn max_shrink_iters(&self) -> u32 {
         1500
